@@ -58,9 +58,10 @@ func sliceGen(name string, cases []*helperCase) helperGen {
 }
 
 func helperGens(o *core.Options) []helperGen {
+	sg := streamGens(o)
 	return []helperGen{
 		sliceGen("iterator.SkipTo", skipToCases(o)),
-		streamGen(o),
+		sg[0], sg[1],
 		sliceGen("iterator.ToChannel", toChannelCases(o)),
 		sliceGen("iterator.FanInIteratorChannels", fanInCases(o)),
 		sliceGen("iterator.Drain", drainCases(o)),
@@ -112,13 +113,13 @@ func runHelpers(o *core.Options, r *core.Report, col *collector) {
 		col.add(g.name, adStat{Inputs: int64(g.inputs)})
 	}
 	col.docs["iterator.SkipTo"] = "no doc comment; inline: 'If current head >= target, we're done. Otherwise advance the iterator' => exactly the leading items < target are consumed"
-	col.open["iterator.SkipTo"] = "whether an input error met while skipping is returned or left for the next read"
+	col.open["iterator.SkipTo"] = "whether an input error (of any kind) met while skipping is returned or left for the next read (the inputs' errors are sticky)"
 	col.docs["iterator.Stream"] = "Stream aggregates multiple iterators that are sent to a source channel into one iterator; Head: 'returns the first item in the buffer. If the Head is sourceIsClosed or cancelled, it will stop the buffer and set the buffer to nil'; SkipToTargetObject: 'moves the buffer until the buffer's head object is >= target object...'; Drain: 'Drain all item in the stream's buffer and return these items'; Streams.Stop: 'Drain all streams completely to avoid leaving dangling resources'; CleanDone: 'clean up the sourceIsClosed iterator streams and return a list of the remaining active streams'"
-	col.open["iterator.Stream"] = "CleanDone after Stop (races with the draining goroutine); results after the first error"
-	col.docs["iterator.ToChannel"] = "no doc comment => every item is delivered in order, a non-Done error is delivered as ValueMsg.Err, the channel is closed at the end"
+	col.open["iterator.Stream"] = "CleanDone after Stop (races with the draining goroutine); CleanDone under a cancelled context (select between ctx.Done() and the source); results after the first error; 'cancelled' in the Head/SkipToTargetObject comments is read as: the request context is cancelled or timed out, or the buffer answers an error of the context.Canceled/DeadlineExceeded family (also wrapped) - Head/Next must still return that error, SkipToTargetObject and Drain end quietly; an error that merely prints like ErrIteratorDone is an ordinary error"
+	col.docs["iterator.ToChannel"] = "no doc comment => every item is delivered in order, a non-Done error of the iterator (any kind, as long as the consumer's context is alive) is delivered as ValueMsg.Err, the channel is closed at the end"
 	col.open["iterator.ToChannel"] = "messages after the first Err message (the producer keeps polling the failed iterator until the context is cancelled); what is delivered once the context is cancelled; who stops the iterator"
 	col.docs["iterator.FanInIteratorChannels"] = "no doc comment; inline: 'the consumer of this channel will block waiting for it to close' => every message of every input channel is delivered exactly once and out is closed once all inputs are closed; under a cancelled context a message is delivered or its iterator is stopped"
-	col.open["iterator.FanInIteratorChannels"] = "relative order of messages; loss of Err messages under cancellation"
+	col.open["iterator.FanInIteratorChannels"] = "relative order of messages; loss of Err messages under cancellation (Err messages carry every error-value kind in turn; the context is alive, cancelled / timed out before the call, or after the first delivery)"
 	col.docs["iterator.Drain"] = "no doc comment; Streams.Stop: 'Drain ... to avoid leaving dangling resources' => after Wait every iterator sent on the (closed) channel is stopped and the channel is empty"
 	col.docs["IsOrdered"] = "the IsOrdered doc comment of each adapter (forwards / false / conjunction of the inputs)"
 }
@@ -127,6 +128,7 @@ func replayHelper(r *core.Report, c Case) bool {
 	o := &core.Options{Tier: "thorough"}
 	var hc *helperCase
 	if c.Adapter == "iterator.Stream" {
+		c := c
 		hc = &helperCase{name: c.Adapter, c: c, run: func() (string, string, []string) { return runStream(c.Inputs, c.Param, c.Script) }}
 	} else {
 		for _, g := range helperGens(o) {
@@ -164,7 +166,7 @@ func skipToCases(o *core.Options) []*helperCase {
 		ml = 5
 	}
 	var out []*helperCase
-	for _, in := range enumInputs(ml, false, []int{termDone, termErr, termCancel}) {
+	for _, in := range enumInputs(ml, false, allTerms) {
 		for _, t := range []byte{'`', 'a', 'b', 'c', 'd'} {
 			in, t := in, t
 			target := "doc:" + string(t)
@@ -173,7 +175,7 @@ func skipToCases(o *core.Options) []*helperCase {
 			}
 			c := Case{Harness: "c23seq", Adapter: "iterator.SkipTo", Inputs: []InSpec{in}, Extra: "target=" + target}
 			out = append(out, &helperCase{name: "iterator.SkipTo", c: c, nt: nontrivial(c.Inputs), run: func() (string, string, []string) {
-				e := newEnv(in.term() == termCancel)
+				e := newEnvMode(ctxModeFor(&adapter{}, []InSpec{in}, ""))
 				defer e.done()
 				s := cPlain.stub(e, 0, in)
 				err := iterator.SkipTo(e.ctx, s, target)
@@ -200,7 +202,8 @@ func skipToCases(o *core.Options) []*helperCase {
 					if res.K != 'o' {
 						return "unexpected-" + kindName(res.K), "no input error was met but SkipTo failed", tr
 					}
-				} else if in.term() == termErr && res.K != 'o' && res.K != 'e' {
+				} else if res.K != 'o' && res.K != 'e' && res.K != 'c' {
+					// the input failed where the skip had to look: nil (the sticky failure is left for the next read) or the failure
 					return "unexpected-" + kindName(res.K), "", tr
 				}
 				return "", "", tr
@@ -214,7 +217,7 @@ func skipToCases(o *core.Options) []*helperCase {
 // Stream
 
 type refStream struct {
-	q       []*rin // nil entry = Err message
+	q       []*rin // msgErr entry = Err message
 	buf     *rin
 	closed  bool
 	removed bool
@@ -225,8 +228,8 @@ func (s *refStream) pull(consume bool) obs {
 		return obs{K: 'd'}
 	}
 	o := s.buf.get(consume)
-	if o.K == 'd' || o.K == 'c' {
-		s.buf = nil // "it will stop the buffer and set the buffer to nil"
+	if o.K == 'd' || isCancelClass(o) {
+		s.buf = nil // "If the Head is sourceIsClosed or cancelled, it will stop the buffer and set the buffer to nil"
 	}
 	return o
 }
@@ -243,7 +246,7 @@ func (s *refStream) op(op byte) obs {
 		}
 		for {
 			h := s.pull(false)
-			if h.K == 'd' || h.K == 'c' {
+			if h.K == 'd' || isCancelClass(h) {
 				return obs{K: 'o'}
 			}
 			if h.K != 'v' {
@@ -253,7 +256,7 @@ func (s *refStream) op(op byte) obs {
 				return obs{K: 'o'}
 			}
 			n := s.pull(true)
-			if n.K == 'd' || n.K == 'c' {
+			if n.K == 'd' || isCancelClass(n) {
 				return obs{K: 'o'}
 			}
 			if n.K != 'v' {
@@ -268,7 +271,7 @@ func (s *refStream) op(op byte) obs {
 				items = append(items, n.ID)
 				continue
 			}
-			if n.K == 'd' || n.K == 'c' {
+			if n.K == 'd' || isCancelClass(n) {
 				return obs{K: 'l', ID: strings.Join(items, ",")}
 			}
 			return n
@@ -280,8 +283,8 @@ func (s *refStream) op(op byte) obs {
 			} else {
 				m := s.q[0]
 				s.q = s.q[1:]
-				if m == nil {
-					return obs{K: 'e'}
+				if m.msgErr {
+					return m.get(false)
 				}
 				s.buf = m
 			}
@@ -297,47 +300,74 @@ func (s *refStream) op(op byte) obs {
 	return obs{K: 'x', ID: "spec-bug"}
 }
 
-func streamGen(o *core.Options) helperGen {
+// streamGens: [0] message lists whose iterators end in {Done, generic error, cancellation} (combined freely; a
+// Msg{Err: generic} in either position) x every script; [1] lists holding one further failure kind (an iterator
+// ending that way with the other iterator ending in Done, or a Msg.Err of that kind) x every script that starts
+// by loading the buffer (CleanDone) - without a buffer no input is read at all.
+func streamGens(o *core.Options) [2]helperGen {
 	ml, sl := 2, 3
 	if o.Thorough() {
 		ml, sl = 3, 4
 	}
-	ins := enumInputs(ml, false, []int{termDone, termErr, termCancel})
-	var scripts []string
+	ins := enumInputs(ml, false, baseTerms)
+	xins := enumInputs(ml, false, extraTerms)
+	dones := enumInputs(ml, false, []int{termDone})
+	var scripts, fscripts []string
 	for _, s := range enumScripts("NHSFKD", sl) {
 		if i := strings.IndexByte(s, 'S'); i >= 0 && strings.IndexByte(s[i:], 'F') >= 0 {
 			continue // CleanDone after Stop races with the draining goroutine
 		}
 		scripts = append(scripts, s)
+		if strings.HasPrefix(s, "F") {
+			fscripts = append(fscripts, s)
+		}
 	}
 	type ml2 struct {
-		ins  []InSpec
-		mask int
+		ins []InSpec
+		p   int // digit i (msgDigit): 0 = message i is the iterator, d > 0 = Msg{Err: kind d-1}
 	}
-	var lists []ml2
+	var lists, xlists []ml2
 	lists = append(lists, ml2{nil, 0})
 	errIn := InSpec{Items: "", Term: "done"}
 	for _, a := range ins {
 		lists = append(lists, ml2{[]InSpec{a}, 0})
 	}
-	lists = append(lists, ml2{[]InSpec{errIn}, 1})
+	for _, a := range xins {
+		xlists = append(xlists, ml2{[]InSpec{a}, 0})
+		for _, b := range dones {
+			xlists = append(xlists, ml2{[]InSpec{a, b}, 0}, ml2{[]InSpec{b, a}, 0})
+		}
+	}
+	base := len(msgErrTerms) + 1
+	for d := 1; d <= len(msgErrTerms); d++ {
+		dst := &xlists
+		if msgErrTerms[d-1] == termErr {
+			dst = &lists
+		}
+		*dst = append(*dst, ml2{[]InSpec{errIn}, d})
+		for _, a := range ins {
+			*dst = append(*dst, ml2{[]InSpec{errIn, a}, d}, ml2{[]InSpec{a, errIn}, d * base})
+		}
+	}
 	for _, a := range ins {
 		for _, b := range ins {
 			lists = append(lists, ml2{[]InSpec{a, b}, 0})
 		}
-		lists = append(lists, ml2{[]InSpec{errIn, a}, 1}, ml2{[]InSpec{a, errIn}, 2})
 	}
-	return helperGen{name: "iterator.Stream", inputs: len(lists), n: len(lists) * len(scripts), at: func(i int) *helperCase {
-		l, sc := lists[i/len(scripts)], scripts[i%len(scripts)]
-		c := Case{Harness: "c23seq", Adapter: "iterator.Stream", Inputs: l.ins, Param: l.mask, ParamIs: "bit i set: message i is Msg{Err: injected}", Script: sc}
-		return &helperCase{name: "iterator.Stream", c: c, nt: nontrivial(l.ins) || l.mask != 0, run: func() (string, string, []string) {
-			return runStream(l.ins, l.mask, sc)
+	gen := func(lists []ml2, scripts []string) helperGen {
+		return helperGen{name: "iterator.Stream", inputs: len(lists), n: len(lists) * len(scripts), at: func(i int) *helperCase {
+			l, sc := lists[i/len(scripts)], scripts[i%len(scripts)]
+			c := Case{Harness: "c23seq", Adapter: "iterator.Stream", Inputs: l.ins, Param: l.p, ParamIs: "digit i (base 7): 0 = message i carries the iterator, d > 0 = message i is Msg{Err: " + strings.Join(termNames[1:], "|") + " minus the two context terminations, kind d}", Script: sc}
+			return &helperCase{name: "iterator.Stream", c: c, nt: nontrivial(l.ins) || l.p != 0, run: func() (string, string, []string) {
+				return runStream(l.ins, l.p, sc)
+			}}
 		}}
-	}}
+	}
+	return [2]helperGen{gen(lists, scripts), gen(xlists, fscripts)}
 }
 
 func runStream(ins []InSpec, mask int, script string) (class, desc string, tr []string) {
-	e := newEnv(true)
+	e := newEnvMode(ctxModeFor(&adapter{asyncStop: true}, ins, ""))
 	defer e.done()
 	ch := make(chan *iterator.Msg, len(ins)+1)
 	ref := &refStream{}
@@ -346,9 +376,9 @@ func runStream(ins []InSpec, mask int, script string) (class, desc string, tr []
 		car = cPlain // the skip target "doc:b" must be able to equal an item
 	}
 	for i, in := range ins {
-		if mask&(1<<i) != 0 {
-			ch <- &iterator.Msg{Err: errInjected}
-			ref.q = append(ref.q, nil)
+		if d := msgDigit(mask, i); d != 0 {
+			ch <- &iterator.Msg{Err: termErrs[msgErrTerms[d-1]]}
+			ref.q = append(ref.q, &rin{term: msgErrTerms[d-1], msgErr: true})
 			continue
 		}
 		ch <- &iterator.Msg{Iter: car.stub(e, i, in)}
@@ -416,8 +446,12 @@ func runStream(ins []InSpec, mask int, script string) (class, desc string, tr []
 			return
 		}
 		if e.fired.Load() {
-			comparing = false
-			return
+			// under a cancelled context: nothing after Stop is judged, CleanDone selects between ctx.Done() and the
+			// source (runtime's choice), the context's error is always acceptable and ends the comparison
+			if stopped || op == 'F' || o.K == 'c' {
+				comparing = false
+				return
+			}
 		}
 		if stopped {
 			want := obs{K: 'd'}
@@ -439,7 +473,11 @@ func runStream(ins []InSpec, mask int, script string) (class, desc string, tr []
 		switch {
 		case r.K == 'e' || r.K == 'c':
 			if o.K == 'v' || o.K == 'd' || o.K == 'o' || o.K == 'l' {
-				fail(fmt.Sprintf("%c-input-error-swallowed", op), fmt.Sprintf("%c returned %s where the buffer/source reports an error", op, o))
+				cls := errClass(r) + "-swallowed"
+				if cls != "input-error-swallowed" {
+					cls = errClass(r) + "-treated-as-exhausted"
+				}
+				fail(fmt.Sprintf("%c-%s", op, cls), fmt.Sprintf("%c returned %s where the buffer/source reports an error", op, o))
 			}
 			comparing = false
 		case o.K == 'e' && r.K != 'e':
@@ -469,12 +507,12 @@ func toChannelCases(o *core.Options) []*helperCase {
 		ml = 5
 	}
 	var out []*helperCase
-	for _, in := range enumInputs(ml, false, []int{termDone, termErr, termCancel}) {
+	for _, in := range enumInputs(ml, false, allTerms) {
 		for _, batch := range []int{0, 1, 2, 8} {
 			in, batch := in, batch
 			c := Case{Harness: "c23seq", Adapter: "iterator.ToChannel", Inputs: []InSpec{in}, Param: batch, ParamIs: "batchSize"}
 			out = append(out, &helperCase{name: "iterator.ToChannel", c: c, nt: nontrivial(c.Inputs), run: func() (class, desc string, tr []string) {
-				e := newEnv(true)
+				e := newEnvMode(ctxModeFor(&adapter{asyncStop: true}, []InSpec{in}, ""))
 				defer e.done()
 				s := cDoc.stub(e, 0, in)
 				ch := iterator.ToChannel[string](e.ctx, s, batch)
@@ -495,7 +533,7 @@ func toChannelCases(o *core.Options) []*helperCase {
 								tr = append(tr, "msg "+errObs(m.Err).String())
 								sawErr = true
 								e.fire() // the consumer gives up: cancels and waits for the close
-								if !errors.Is(m.Err, errInjected) {
+								if !errors.Is(m.Err, termErrs[in.term()]) {
 									class, desc = "wrong-error-message", m.Err.Error()
 								}
 							}
@@ -532,12 +570,18 @@ func toChannelCases(o *core.Options) []*helperCase {
 					if len(got) != len(want) || sawErr {
 						return "items-lost-or-spurious-error", fmt.Sprintf("delivered %v err=%v, specified %v then close", got, sawErr, want), tr
 					}
-				case termErr:
+				case termCancel, termDeadline:
+					// the consumer's own context is gone: nothing more is specified
+				default: // an error value while the consumer's context is alive
 					if len(got) != len(want) {
 						return "items-lost-before-error", fmt.Sprintf("delivered %v, specified %v then the error", got, want), tr
 					}
 					if !sawErr {
-						return "input-error-swallowed", "the channel was closed without an Err message", tr
+						cls := errClass((&rin{term: in.term()}).get(false))
+						if cls == "input-error" {
+							return "input-error-swallowed", "the channel was closed without an Err message", tr
+						}
+						return cls + "-treated-as-exhausted", "the iterator failed with " + termErrs[in.term()].Error() + " under a live context; the channel was closed without an Err message, as after a complete sequence", tr
 					}
 				}
 				return "", "", tr
@@ -571,21 +615,26 @@ func fanInCases(o *core.Options) []*helperCase {
 	}
 	var out []*helperCase
 	for _, cb := range combos {
-		for mode := 0; mode < 3; mode++ {
+		for mode := 0; mode < len(fanInModes); mode++ {
 			cb, mode := cb, mode
 			total := 0
 			for _, s := range cb {
 				total += len(s)
 			}
-			c := Case{Harness: "c23seq", Adapter: "iterator.FanInIteratorChannels", Extra: strings.Join(cb, "|") + fmt.Sprintf(";channels=%d;mode=%d", len(cb), mode), Script: []string{"live", "precancelled", "cancel-after-first"}[mode]}
+			c := Case{Harness: "c23seq", Adapter: "iterator.FanInIteratorChannels", Extra: strings.Join(cb, "|") + fmt.Sprintf(";channels=%d;mode=%d", len(cb), mode), Script: fanInModes[mode]}
 			out = append(out, &helperCase{name: "iterator.FanInIteratorChannels", c: c, nt: total >= 2, run: func() (string, string, []string) { return runFanIn(cb, mode) }})
 		}
 	}
 	return out
 }
 
+var fanInModes = []string{"live", "precancelled", "cancel-after-first", "deadline-passed-before", "deadline-passes-after-first"}
+
 func runFanIn(cb []string, mode int) (class, desc string, tr []string) {
-	e := newEnv(true)
+	e := newEnvMode(1 + mode/3) // modes 3, 4: the harness deadline context
+	if mode >= 3 {
+		mode -= 2 // same timing as the cancellation modes
+	}
 	defer e.done()
 	type sent struct {
 		m    *iterator.Msg
@@ -607,7 +656,7 @@ func runFanIn(cb []string, mode int) (class, desc string, tr []string) {
 				m.Iter = st
 				sn.st = st.st
 			} else {
-				m.Err = errInjected
+				m.Err = termErrs[msgErrTerms[(i+k)%len(msgErrTerms)]] // every error-value kind in turn
 			}
 			ch <- m
 			all = append(all, sn)
